@@ -117,7 +117,8 @@ def get_next_imf(X, env_step_size=1, max_iters=1000, energy_thresh=None,
     if envelope_opts is None:
         envelope_opts = {}
 
-    proto_imf = X.copy()
+    # Work on a floating point copy - squares of integer-typed data overflow in the stopping metrics
+    proto_imf = np.array(X, dtype=float)
 
     continue_imf = True
     continue_flag = True
